@@ -629,6 +629,16 @@ Proof.
     + apply IH; [assumption|]. intros Hi. apply Hni. right; assumption.
 Qed.
 
+Lemma NoDup_map_filter {A B} (f : A -> B) (p : A -> bool) l : NoDup (map f l) -> NoDup (map f (filter p l)).
+Proof.
+  induction l as [|a l IH]; cbn [filter map]; intros Hnd; [constructor|].
+  apply NoDup_cons_iff in Hnd. destruct Hnd as [Hna Hnd].
+  destruct (p a); [|apply IH; assumption].
+  cbn [map]. apply NoDup_cons; [|apply IH; assumption].
+  intros Hi. apply Hna. apply in_map_iff in Hi. destruct Hi as (y & Hy & Hyin).
+  apply filter_In in Hyin. apply in_map_iff. exists y. tauto.
+Qed.
+
 Lemma don_init : don init.
 Proof. constructor; cbn; [contradiction|constructor]. Qed.
 
@@ -674,12 +684,554 @@ Proof.
     destruct (release c (region_iv r) (ledger st)); (split; [apply Hne|cbn; lia]).
   - split; [|cbn; lia]. constructor; cbn [gc entries].
     + intros e He. apply filter_In in He. destruct He as [He _]. apply (Hok e He).
-    + clear Hok. induction (entries st) as [|a l IH]; cbn [filter map]; [constructor|].
-      cbn [map] in Hnd. apply NoDup_cons_iff in Hnd. destruct Hnd as [Hna Hnd].
-      destruct (existsb (Z.eqb (eser a)) keep); [|apply IH; assumption].
-      cbn [map]. apply NoDup_cons; [|apply IH; assumption].
-      intros Hi. apply Hna. apply in_map_iff in Hi. destruct Hi as (y & Hy & Hyin).
-      apply filter_In in Hyin. apply in_map_iff. exists y. tauto.
+    + apply NoDup_map_filter. assumption.
   - unfold mk. destruct ((0 <=? len) && (len <=? cap)); (split; [constructor; assumption|cbn; lia]).
-  - split; [constructor; assumption|lia].
+  - split; [constructor; assumption|cbn; lia].
+Qed.
+
+Lemma final_snoc st ops o : final st (ops ++ [o]) = fst (step (final st ops) o).
+Proof. rewrite final_app, final_cons. reflexivity. Qed.
+
+Lemma events_snoc st ops o : events st (ops ++ [o]) = (events st ops ++ [snd (step (final st ops) o)])%list.
+Proof. rewrite events_app, events_cons. reflexivity. Qed.
+
+(* where the entries of the next state come from *)
+Lemma step_entries st o e : In e (entries (fst (step st o))) ->
+  In e (entries st) \/
+  exists c d, o = OPut c (edon e) /\ snd (step st o) = EPut (Some e) d /\ eser e = nput st.
+Proof.
+  destruct o as [c size choice|c r|keep|c len cap|c r]; cbn [step].
+  - unfold get.
+    destruct (size <=? 0); [auto|].
+    destruct (size >? MaxInt32); [auto|].
+    destruct (bs_index size) as [idx|]; [|auto].
+    destruct ((idx <? 0) || (32 <=? idx)); [auto|].
+    destruct (choice <? 0); [auto|].
+    destruct (take_entry choice (entries st)) as [[e0 rest]|] eqn:Et; [|auto].
+    destruct (ecls e0 =? idx); [|auto].
+    cbn. intros H. left. apply (take_entry_spec _ _ _ _ Et). assumption.
+  - unfold put.
+    destruct (put_noop r); [auto|].
+    destruct (put_idx (rcap r)) as [idx|]; [|auto].
+    destruct ((idx <? 0) || (32 <=? idx)); [auto|].
+    destruct (release c (region_iv r) (ledger st)); cbn; intros H; apply in_app_or in H;
+      (destruct H as [H|[<-|[]]]; [left; assumption|right; cbn; eauto]).
+  - cbn. intros H. apply filter_In in H. tauto.
+  - unfold mk. destruct ((0 <=? len) && (len <=? cap)); auto.
+  - auto.
+Qed.
+
+Lemma step_getpool st o r e x : don st -> snd (step st o) = EGetPool r e x ->
+  In e (entries st) /\ ~ In e (entries (fst (step st o))).
+Proof.
+  intros [Hok Hnd]. destruct o as [c size choice|c r0|keep|c len cap|c r0]; cbn [step].
+  - unfold get.
+    destruct (size <=? 0); [discriminate|].
+    destruct (size >? MaxInt32); [discriminate|].
+    destruct (bs_index size) as [idx|]; [|discriminate].
+    destruct ((idx <? 0) || (32 <=? idx)); [discriminate|].
+    destruct (choice <? 0); [discriminate|].
+    destruct (take_entry choice (entries st)) as [[e0 rest]|] eqn:Et; [|discriminate].
+    destruct (ecls e0 =? idx); [|discriminate].
+    cbn. intros [= <- <- <-].
+    destruct (take_entry_spec _ _ _ _ Et) as (_ & Hin & _).
+    destruct (take_entry_nodup _ _ _ _ Hnd Et) as [Hni _].
+    split; [assumption|]. intros Hi. apply Hni. apply in_map. assumption.
+  - unfold put.
+    destruct (put_noop r0); [discriminate|].
+    destruct (put_idx (rcap r0)) as [idx|]; [|discriminate].
+    destruct ((idx <? 0) || (32 <=? idx)); [discriminate|].
+    destruct (release c (region_iv r0) (ledger st)); discriminate.
+  - discriminate.
+  - unfold mk. destruct ((0 <=? len) && (len <=? cap)); discriminate.
+  - discriminate.
+Qed.
+
+Record hist (ops : list op) : Prop := mkHist {
+  h_don : don (final init ops);
+  h_src : forall e, In e (entries (final init ops)) ->
+          exists j c d, nth_error ops j = Some (OPut c (edon e)) /\
+                        nth_error (events init ops) j = Some (EPut (Some e) d);
+  h_unused : forall e, In e (entries (final init ops)) ->
+             forall j r x, nth_error (events init ops) j <> Some (EGetPool r e x);
+  h_ser : forall j r e x, nth_error (events init ops) j = Some (EGetPool r e x) ->
+          eser e < nput (final init ops)
+}.
+
+Lemma nth_error_snoc_cases {A} (l : list A) a j v : nth_error (l ++ [a]) j = Some v ->
+  (nth_error l j = Some v /\ (j < List.length l)%nat) \/ (j = List.length l /\ v = a).
+Proof.
+  intros H. destruct (Nat.lt_ge_cases j (List.length l)) as [Hlt|Hge].
+  - left. rewrite nth_error_app1 in H by assumption. auto.
+  - right. rewrite nth_error_app2 in H by assumption.
+    destruct (j - List.length l)%nat as [|k] eqn:E; cbn in H.
+    + injection H as <-. split; [lia|reflexivity].
+    + destruct k; discriminate.
+Qed.
+
+Lemma nth_error_snoc_old {A} (l : list A) a j v : nth_error l j = Some v -> nth_error (l ++ [a]) j = Some v.
+Proof. intros H. rewrite nth_error_app1; [assumption|]. apply nth_error_Some. congruence. Qed.
+
+Lemma nth_error_snoc_new {A} (l : list A) a : nth_error (l ++ [a]) (List.length l) = Some a.
+Proof. rewrite nth_error_app2 by lia. rewrite Nat.sub_diag. reflexivity. Qed.
+
+Lemma hist_all ops : hist ops.
+Proof.
+  induction ops as [|o ops IH] using rev_ind.
+  - constructor; cbn.
+    + exact don_init.
+    + contradiction.
+    + contradiction.
+    + intros [|j]; discriminate.
+  - destruct IH as [Hd Hsrc Hun Hser].
+    set (st := final init ops) in *.
+    destruct (step_don st o Hd) as [Hd' Hmono].
+    constructor; rewrite ?final_snoc, ?events_snoc; fold st.
+    + assumption.
+    + intros e He. destruct (step_entries st o e He) as [Hold|(c & d & -> & Hev & _)].
+      * destruct (Hsrc e Hold) as (j & c & d & Hj & Hej).
+        exists j, c, d. split; apply nth_error_snoc_old; assumption.
+      * exists (List.length ops), c, d. split.
+        -- apply nth_error_snoc_new.
+        -- rewrite <- (events_length init ops), <- Hev. apply nth_error_snoc_new.
+    + intros e He j r x Hj.
+      apply nth_error_snoc_cases in Hj. destruct Hj as [[Hj _]|[_ Hj]].
+      * destruct (step_entries st o e He) as [Hold|(c & d & _ & _ & Hs)].
+        -- exact (Hun e Hold j r x Hj).
+        -- pose proof (Hser j r e x Hj). lia.
+      * symmetry in Hj. destruct (step_getpool st o r e x Hd Hj) as [_ Hni]. contradiction.
+    + intros j r e x Hj.
+      apply nth_error_snoc_cases in Hj. destruct Hj as [[Hj _]|[_ Hj]].
+      * pose proof (Hser j r e x Hj). lia.
+      * symmetry in Hj. destruct (step_getpool st o r e x Hd Hj) as [Hin _].
+        destruct (don_ok st Hd e Hin) as (_ & _ & _ & _ & Hlt). lia.
+Qed.
+
+(* "never hands out memory beyond that slice's own capacity": whatever Get
+   takes from the pool starts where a slice donated by an earlier Put of this
+   history starts, does not extend beyond that slice's capacity, and that
+   donation has not been handed out before.  Holds for every history, with or
+   without discipline, for every slice shape. *)
+Theorem get_within_donation : forall ops c size choice r e x,
+  (forall c' d, In (OPut c' d) ops -> 0 <= rcap d) ->
+  snd (get (final init ops) c size choice) = EGetPool r e x ->
+  (exists j c' b, nth_error ops j = Some (OPut c' (edon e)) /\
+                  nth_error (events init ops) j = Some (EPut (Some e) b)) /\
+  rid r = rid (edon e) /\ roff r = roff (edon e) /\ rcap r <= rcap (edon e) /\
+  within_donation r e = true /\
+  (forall j r' x', nth_error (events init ops) j <> Some (EGetPool r' e x')).
+Proof.
+  intros ops c size choice r e x Hwf Hg.
+  destruct (hist_all ops) as [Hd Hsrc Hun Hser].
+  pose proof (step_getpool (final init ops) (OGet c size choice) r e x Hd Hg) as [Hin _].
+  destruct (Hsrc e Hin) as (j & c' & b & Hj & Hej).
+  destruct (don_ok _ Hd e Hin) as (Hid & Hoff & Hcls & Hcap & _).
+  assert (Hnn : 0 <= rcap (edon e)) by (apply (Hwf c'); eapply nth_error_In; eassumption).
+  specialize (Hcap Hnn).
+  assert (Hr : rid r = eid e /\ roff r = eoff e /\ rcap r = 2^(ecls e)).
+  { revert Hg. unfold get.
+    destruct (size <=? 0); [discriminate|].
+    destruct (size >? MaxInt32); [discriminate|].
+    destruct (bs_index size) as [idx|]; [|discriminate].
+    destruct ((idx <? 0) || (32 <=? idx)); [discriminate|].
+    destruct (choice <? 0); [discriminate|].
+    destruct (take_entry choice (entries (final init ops))) as [[e0 rest]|]; [|discriminate].
+    destruct (Z.eqb_spec (ecls e0) idx) as [<-|]; [|discriminate].
+    cbn. intros [= <- <- <-]. cbn. rewrite shiftl1 by (destruct Hcls; lia). auto. }
+  destruct Hr as (Hr1 & Hr2 & Hr3).
+  splits.
+  - exists j, c', b. auto.
+  - congruence.
+  - congruence.
+  - lia.
+  - unfold within_donation, iv_inside, region_iv; cbn [vid vlo vhi]. lia.
+  - apply Hun. assumption.
+Qed.
+
+(* a fresh result is a new allocation: it is part of no earlier allocation *)
+Lemma ids_final ops : forall id sz, In (id, sz) (allocs (final init ops)) -> id < next_id (final init ops).
+Proof.
+  induction ops as [|o ops IH] using rev_ind; [cbn; contradiction|].
+  rewrite final_snoc. set (st := final init ops) in *.
+  destruct o as [c size choice|c r|keep|c len cap|c r]; cbn [step].
+  - unfold get.
+    destruct (size <=? 0); [exact IH|].
+    destruct (size >? MaxInt32).
+    { cbn. intros id sz [[= <- <-]|H]; [lia|]. specialize (IH id sz H). lia. }
+    destruct (bs_index size) as [idx|]; [|exact IH].
+    destruct ((idx <? 0) || (32 <=? idx)); [exact IH|].
+    destruct (choice <? 0).
+    { cbn. intros id sz [[= <- <-]|H]; [lia|]. specialize (IH id sz H). lia. }
+    destruct (take_entry choice (entries st)) as [[e0 rest]|]; [|exact IH].
+    destruct (ecls e0 =? idx); exact IH.
+  - unfold put.
+    destruct (put_noop r); [exact IH|].
+    destruct (put_idx (rcap r)) as [idx|]; [|exact IH].
+    destruct ((idx <? 0) || (32 <=? idx)); [exact IH|].
+    destruct (release c (region_iv r) (ledger st)); exact IH.
+  - exact IH.
+  - unfold mk. destruct ((0 <=? len) && (len <=? cap)); [|exact IH].
+    cbn. intros id sz [[= <- <-]|H]; [lia|]. specialize (IH id sz H). lia.
+  - exact IH.
+Qed.
+
+Theorem get_fresh_is_new : forall ops c size choice r x,
+  snd (get (final init ops) c size choice) = EGetFresh r x ->
+  roff r = 0 /\ forall sz, ~ In (rid r, sz) (allocs (final init ops)).
+Proof.
+  intros ops c size choice r x. unfold get.
+  pose proof (ids_final ops) as Hids.
+  destruct (size <=? 0); [discriminate|].
+  destruct (size >? MaxInt32).
+  { cbn. intros [= <- _]. cbn. split; [reflexivity|]. intros sz H. specialize (Hids _ _ H). lia. }
+  destruct (bs_index size) as [idx|]; [|discriminate].
+  destruct ((idx <? 0) || (32 <=? idx)); [discriminate|].
+  destruct (choice <? 0).
+  { cbn. intros [= <- _]. cbn. split; [reflexivity|]. intros sz H. specialize (Hids _ _ H). lia. }
+  destruct (take_entry choice (entries (final init ops))) as [[e0 rest]|]; [|discriminate].
+  destruct (ecls e0 =? idx); discriminate.
+Qed.
+
+(* ------------------------------------------------------------------ *)
+(* ring-buffer pool *)
+
+Lemma in_snd {A B} (a : A) (b : B) l : In (a, b) l -> In b (map snd l).
+Proof. intros H. change b with (snd (a, b)). apply in_map. assumption. Qed.
+
+Record rbinv (st : rbstate) : Prop := mkRbInv {
+  rb_bag_ok : forall s id, In (s, id) (rb_bag st) -> lookup id (rb_bufs st) = 0 /\ rb_unheld st id = true;
+  rb_bag_nodup : NoDup (map snd (rb_bag st));
+  rb_held_nodup : NoDup (map snd (rb_held st));
+  rb_held_lt : forall o, In o (rb_held st) -> snd o < rb_next st;
+  rb_bag_lt : forall s id, In (s, id) (rb_bag st) -> id < rb_next st
+}.
+
+Lemma rbinv_init : rbinv rb_init.
+Proof. constructor; cbn; try contradiction; constructor. Qed.
+
+Lemma unheld_not_in held id : forallb (fun o : Z * Z => negb (snd o =? id)) held = true <-> ~ In id (map snd held).
+Proof.
+  induction held as [|o l IH]; cbn [forallb map In]; [tauto|].
+  rewrite andb_true_iff, IH. destruct (Z.eqb_spec (snd o) id); cbn; intuition congruence.
+Qed.
+
+Lemma holds_in held c id : existsb (held_by c id) held = true -> In (c, id) held.
+Proof.
+  intros H. apply existsb_exists in H. destruct H as ([c' id'] & Hin & Hm).
+  unfold held_by in Hm. cbn in Hm. assert (c' = c /\ id' = id) as [-> ->] by lia. assumption.
+Qed.
+
+Lemma lookup_update_same id v l : lookup id (update id v l) = v \/ lookup id (update id v l) = 0.
+Proof.
+  induction l as [|[k w] l IH]; cbn [update lookup]; [auto|].
+  destruct (Z.eqb_spec k id) as [->|Hne]; cbn [lookup].
+  - rewrite Z.eqb_refl. auto.
+  - destruct (Z.eqb_spec k id); [contradiction|]. assumption.
+Qed.
+
+Lemma lookup_update_other id id' v l : id' <> id -> lookup id' (update id v l) = lookup id' l.
+Proof.
+  intros Hne. induction l as [|[k w] l IH]; cbn [update lookup]; [reflexivity|].
+  destruct (Z.eqb_spec k id) as [->|Hk]; cbn [lookup].
+  - destruct (Z.eqb_spec id id'); [congruence|reflexivity].
+  - rewrite IH. reflexivity.
+Qed.
+
+Lemma drop_first_spec c id held : NoDup (map snd held) -> In (c, id) held ->
+  ~ In id (map snd (drop_first c id held)) /\ NoDup (map snd (drop_first c id held)) /\
+  (forall o, In o (drop_first c id held) -> In o held).
+Proof.
+  induction held as [|o l IH]; cbn [drop_first map]; intros Hnd Hin; [contradiction|].
+  apply NoDup_cons_iff in Hnd. destruct Hnd as [Hna Hnd].
+  destruct (held_by c id o) eqn:E.
+  - unfold held_by in E. assert (snd o = id) by lia. subst id. splits; auto. intros; right; assumption.
+  - destruct Hin as [->|Hin]; [unfold held_by in E; cbn in E; lia|].
+    destruct (IH Hnd Hin) as (H1 & H2 & H3).
+    splits.
+    + cbn [map]. intros [Heq|Hi]; [|contradiction].
+      apply Hna. rewrite Heq. eapply in_snd; eassumption.
+    + cbn [map]. apply NoDup_cons; [|assumption].
+      intros Hi. apply Hna. apply in_map_iff in Hi. destruct Hi as (y & Hy & Hyin).
+      apply in_map_iff. exists y. auto.
+    + intros y [<-|Hy]; [left; reflexivity|right; auto].
+Qed.
+
+Lemma drop_first_sub c id held o : In o (drop_first c id held) -> In o held.
+Proof.
+  induction held as [|a l IH]; cbn [drop_first]; [auto|].
+  destruct (held_by c id a); [intros; right; assumption|].
+  intros [<-|H]; [left; reflexivity|right; auto].
+Qed.
+
+Lemma take_rb_spec ser l id rest : take_rb ser l = Some (id, rest) ->
+  In (ser, id) l /\ (forall x, In x rest -> In x l) /\
+  (NoDup (map snd l) -> ~ In id (map snd rest) /\ NoDup (map snd rest)).
+Proof.
+  revert rest. induction l as [|[s i] l IH]; cbn [take_rb]; intros rest H; [discriminate|].
+  destruct (Z.eqb_spec s ser) as [->|Hne].
+  - injection H as <- <-. splits.
+    + left; reflexivity.
+    + intros; right; assumption.
+    + cbn [map snd]. intros Hnd. apply NoDup_cons_iff in Hnd. assumption.
+  - destruct (take_rb ser l) as [[x r]|] eqn:Et; [|discriminate].
+    injection H as <- <-. destruct (IH r eq_refl) as (H1 & H2 & H3). splits.
+    + right; assumption.
+    + intros y [<-|Hy]; [left; reflexivity|right; auto].
+    + cbn [map snd]. intros Hnd. apply NoDup_cons_iff in Hnd. destruct Hnd as [Hna Hnd].
+      destruct (H3 Hnd) as [H4 H5]. split.
+      * intros [Heq|Hi]; [|contradiction]. apply Hna. subst i.
+        eapply in_snd; eassumption.
+      * apply NoDup_cons; [|assumption]. intros Hi. apply Hna.
+        apply in_map_iff in Hi. destruct Hi as (y & Hy & Hyin). apply in_map_iff. exists y. auto.
+Qed.
+
+Definition rb_event_ok (ev : rbevent) : Prop :=
+  match ev with
+  | RGot id b x => b = 0 /\ x = true
+  | RUsed own => own = true
+  | RPutDone d _ => d = true
+  | _ => True
+  end.
+
+Lemma rb_step_ok st o : rbinv st -> rb_op_ok st o ->
+  rbinv (fst (rb_step st o)) /\ rb_event_ok (snd (rb_step st o)).
+Proof.
+  intros [Hbag Hbnd Hhnd Hhlt Hblt] Hok.
+  assert (Hfresh_unheld : rb_unheld st (rb_next st) = true).
+  { apply unheld_not_in. intros Hi. apply in_map_iff in Hi. destruct Hi as (o' & Ho' & Hin).
+    specialize (Hhlt o' Hin). lia. }
+  assert (Hfresh : forall c, rbinv (mkRb (rb_next st + 1) ((rb_next st, 0) :: rb_bufs st) (rb_bag st)
+                                      ((c, rb_next st) :: rb_held st) (rb_nput st))).
+  { intros c. constructor; cbn [rb_bag rb_bufs rb_held rb_next].
+    - intros s id Hin. destruct (Hbag s id Hin) as [Hl Hu]. specialize (Hblt s id Hin).
+      split.
+      + cbn [lookup]. destruct (Z.eqb_spec (rb_next st) id); [lia|assumption].
+      + unfold rb_unheld in *. cbn [rb_held forallb snd]. rewrite Hu.
+        destruct (Z.eqb_spec (rb_next st) id); [lia|reflexivity].
+    - assumption.
+    - cbn [map snd]. apply NoDup_cons; [|assumption]. apply unheld_not_in. exact Hfresh_unheld.
+    - intros o' [<-|Hin]; [cbn; lia|]. specialize (Hhlt o' Hin). lia.
+    - intros s id Hin. specialize (Hblt s id Hin). lia. }
+  destruct o as [c choice|c|c id n|c id kept|keep]; cbn [rb_step].
+  - destruct (choice <? 0).
+    + cbn [fst snd]. split; [apply Hfresh|]. cbn. auto.
+    + destruct (take_rb choice (rb_bag st)) as [[id rest]|] eqn:Et; [|split; [constructor; assumption|exact Logic.I]].
+      destruct (take_rb_spec _ _ _ _ Et) as (Hin & Hsub & Hnd). destruct (Hnd Hbnd) as [Hni Hnd'].
+      destruct (Hbag _ _ Hin) as [Hl Hu]. cbn [fst snd]. split; [|cbn; auto].
+      constructor; cbn [rb_bag rb_bufs rb_held rb_next].
+      * intros s id' Hin'. destruct (Hbag s id' (Hsub _ Hin')) as [Hl' Hu']. split; [assumption|].
+        unfold rb_unheld in *. cbn [rb_held forallb snd]. rewrite Hu'.
+        destruct (Z.eqb_spec id id') as [->|]; [|reflexivity].
+        exfalso. apply Hni. eapply in_snd; eassumption.
+      * assumption.
+      * cbn [map snd]. apply NoDup_cons; [|assumption]. apply unheld_not_in. exact Hu.
+      * intros o' [<-|Hin']; [cbn; apply (Hblt _ _ Hin)|apply Hhlt; assumption].
+      * intros s id' Hin'. apply (Hblt s id'). apply Hsub. assumption.
+  - cbn [fst snd]. split; [apply Hfresh|exact Logic.I].
+  - destruct Hok as [Hh Hn]. rewrite Hh. unfold rb_holds in Hh. cbn [fst snd]. split; [|reflexivity].
+    pose proof (holds_in _ _ _ Hh) as Hin.
+    constructor; cbn [rb_bag rb_bufs rb_held rb_next]; auto.
+    intros s id' Hin'. destruct (Hbag s id' Hin') as [Hl Hu]. split; [|exact Hu].
+    rewrite lookup_update_other; [assumption|].
+    intros ->. apply unheld_not_in in Hu. apply Hu. eapply in_snd; eassumption.
+  - cbn [rb_op_ok] in Hok. rewrite Hok. unfold rb_holds in Hok.
+    pose proof (holds_in _ _ _ Hok) as Hin.
+    destruct (drop_first_spec c id (rb_held st) Hhnd Hin) as (Hni & Hnd' & Hsub).
+    assert (Hnotbag : ~ In id (map snd (rb_bag st))).
+    { intros Hi. apply in_map_iff in Hi. destruct Hi as ([s i] & Hs & Hib). cbn in Hs. subst i.
+      destruct (Hbag _ _ Hib) as [_ Hu]. apply unheld_not_in in Hu. apply Hu.
+      eapply in_snd; eassumption. }
+    destruct kept; cbn [fst snd]; (split; [|reflexivity]);
+      constructor; cbn [rb_bag rb_bufs rb_held rb_next].
+    + intros s id' Hin'. apply in_app_or in Hin'. destruct Hin' as [Hin'|[[= <- <-]|[]]].
+      * destruct (Hbag s id' Hin') as [Hl Hu].
+        assert (id' <> id).
+        { intros ->. apply Hnotbag. eapply in_snd; eassumption. }
+        split; [rewrite lookup_update_other; assumption|].
+        apply unheld_not_in. apply unheld_not_in in Hu. intros Hi. apply Hu.
+        apply in_map_iff in Hi. destruct Hi as (y & Hy & Hyin). apply in_map_iff. exists y. auto.
+      * split; [|apply unheld_not_in; assumption].
+        destruct (lookup_update_same id 0 (rb_bufs st)); assumption.
+    + rewrite map_app. cbn [map snd]. apply NoDup_snoc; assumption.
+    + assumption.
+    + intros o' Ho'. apply Hhlt. apply Hsub. assumption.
+    + intros s id' Hin'. apply in_app_or in Hin'. destruct Hin' as [Hin'|[[= <- <-]|[]]].
+      * apply (Hblt s id'). assumption.
+      * apply (Hhlt (c, id)). assumption.
+    + intros s id' Hin'. destruct (Hbag s id' Hin') as [Hl Hu]. split; [assumption|].
+      apply unheld_not_in. apply unheld_not_in in Hu. intros Hi. apply Hu.
+      apply in_map_iff in Hi. destruct Hi as (y & Hy & Hyin). apply in_map_iff. exists y. auto.
+    + assumption.
+    + assumption.
+    + intros o' Ho'. apply Hhlt. apply Hsub. assumption.
+    + assumption.
+  - cbn [fst snd]. split; [|exact Logic.I]. constructor; cbn [rb_bag rb_bufs rb_held rb_next]; auto.
+    + intros s id Hin. apply filter_In in Hin. apply (Hbag s id). tauto.
+    + apply NoDup_map_filter. assumption.
+    + intros s id Hin. apply filter_In in Hin. apply (Hblt s id). tauto.
+Qed.
+
+Lemma rb_run_cons st o rest :
+  rb_run st (o :: rest) = (fst (rb_run (fst (rb_step st o)) rest),
+                           snd (rb_step st o) :: snd (rb_run (fst (rb_step st o)) rest)).
+Proof. cbn [rb_run]. destruct (rb_step st o) as [st1 ev]. cbn [fst snd]. destruct (rb_run st1 rest). reflexivity. Qed.
+
+Lemma rb_run_ok ops : forall st, rbinv st -> rb_disciplined st ops ->
+  rbinv (fst (rb_run st ops)) /\ Forall rb_event_ok (snd (rb_run st ops)).
+Proof.
+  induction ops as [|o ops IH]; intros st I D.
+  - cbn. auto.
+  - destruct D as [Hok D]. destruct (rb_step_ok st o I Hok) as [I' Hev].
+    rewrite rb_run_cons. cbn [fst snd]. destruct (IH _ I' D) as [HF HE]. split; [assumption|].
+    constructor; assumption.
+Qed.
+
+(* C12, ring-buffer part: in every history in which a ring buffer is returned
+   only by its holder and used only by its holder, whatever Get hands out is
+   empty (fresh, or Reset by Put) and held by nobody else; and no ring buffer
+   is ever held twice. *)
+Theorem rbpool_get_empty_unshared : forall ops, rb_disciplined rb_init ops ->
+  (forall k id b x, nth_error (snd (rb_run rb_init ops)) k = Some (RGot id b x) -> b = 0 /\ x = true) /\
+  NoDup (map snd (rb_held (fst (rb_run rb_init ops)))).
+Proof.
+  intros ops D. destruct (rb_run_ok ops rb_init rbinv_init D) as [HI HE]. split.
+  - intros k id b x Hk. rewrite Forall_forall in HE. apply (HE (RGot id b x)).
+    eapply nth_error_In. eassumption.
+  - apply (rb_held_nodup _ HI).
+Qed.
+
+(* ------------------------------------------------------------------ *)
+(* the discipline hypothesis is necessary: donating the same memory twice
+   (what conn.release did with the two Zone strings of a dialled IPv6
+   link-local connection before the fix) makes two later Gets alias.
+   Client 9 is package net (owner of the zone-cache string, 4 bytes);
+   client 1 is the connection, which Puts that string's bytes twice. *)
+Definition zone : region := mkRegion 0 0 4 4.
+Definition zone_history : list op :=
+  [OMk 9 4 4; OPut 1 zone; OPut 1 zone; OGet 2 4 0; OGet 3 4 1].
+
+Lemma zone_history_undisciplined : ~ disciplined init zone_history.
+Proof. cbn. intros (_ & (_ & [H|H]) & _); discriminate H. Qed.
+
+Lemma double_put_aliases :
+  exists r1 e1 r2 e2,
+    nth_error (events init zone_history) 3 = Some (EGetPool r1 e1 false) /\
+    nth_error (events init zone_history) 4 = Some (EGetPool r2 e2 false) /\
+    iv_overlap (region_iv r1) (region_iv r2) = true /\
+    iv_overlap (region_iv r1) (region_iv zone) = true.
+Proof. vm_compute. do 4 eexists. splits; reflexivity. Qed.
+
+(* ------------------------------------------------------------------ *)
+(* non-vacuity: a disciplined history over two clients with an odd-capacity
+   foreign slice, a re-sliced tail, a GC and reuse *)
+Definition ex_history : list op :=
+  [OGet 1 100 (-1);                              (* alloc 0: cap 128 *)
+   OMk 2 10 13;                                  (* alloc 1: foreign, odd cap *)
+   OPut 2 (mkRegion 1 0 10 13);                  (* stored in class 3 (8 <= 13) *)
+   OPut 1 (mkRegion 0 28 72 100);                (* tail b[28:]: class 6 (64 <= 100) *)
+   OWr 1 (mkRegion 0 0 28 28);                   (* the head is still owned by client 1 *)
+   OGet 2 8 0;                                   (* client 2 gets the 13-byte donation back, cap 8 *)
+   OGet 3 40 1;                                  (* client 3 gets the tail, cap 64 *)
+   OGc [];
+   OGet 1 2147483648 (-1)].
+
+Example ex_history_disciplined : disciplined init ex_history.
+Proof. cbn. repeat split; try lia; auto. Qed.
+
+Example ex_history_events :
+  events init ex_history =
+  [EGetFresh (mkRegion 0 0 100 128) true; EMk (mkRegion 1 0 10 13);
+   EPut (Some (mkEntry 3 1 0 0 (mkRegion 1 0 10 13))) true;
+   EPut (Some (mkEntry 6 0 28 1 (mkRegion 0 28 72 100))) true;
+   EWr true;
+   EGetPool (mkRegion 1 0 8 8) (mkEntry 3 1 0 0 (mkRegion 1 0 10 13)) true;
+   EGetPool (mkRegion 0 28 40 64) (mkEntry 6 0 28 1 (mkRegion 0 28 72 100)) true;
+   EGc;
+   EGetFresh (mkRegion 2 0 2147483648 2147483648) true].
+Proof. vm_compute. reflexivity. Qed.
+
+Definition ex_rb_history : list rbop :=
+  [RGet 1 (-1); RUse 1 0 700; RPut 1 0 true; RGet 2 0; RMk 3; RUse 3 1 5; RPut 3 1 false; RGc []].
+
+Example ex_rb_disciplined : rb_disciplined rb_init ex_rb_history.
+Proof. cbn. repeat split; try lia; auto. Qed.
+
+Example ex_rb_events :
+  snd (rb_run rb_init ex_rb_history) =
+  [RGot 0 0 true; RUsed true; RPutDone true 0; RGot 0 0 true; RMade 1; RUsed true; RPutDone true 5; RGcDone].
+Proof. vm_compute. reflexivity. Qed.
+
+(* ------------------------------------------------------------------ *)
+(* the statements as exported to Properties/C12.v (definitions unfolded) *)
+
+Theorem get_shape_hist : forall ops c size choice r,
+  disciplined init ops ->
+  (exists x, snd (get (final init ops) c size choice) = EGetFresh r x) \/
+  (exists e x, snd (get (final init ops) c size choice) = EGetPool r e x) ->
+  0 < size /\ rlen r = size /\ size <= rcap r /\
+  (size <= MaxInt32 -> exists i, 0 <= i <= 31 /\ rcap r = 2^i /\ forall j, 0 <= j -> size <= 2^j -> i <= j) /\
+  (MaxInt32 < size -> rcap r = size) /\
+  0 <= roff r /\
+  exists sz, In (rid r, sz) (allocs (fst (get (final init ops) c size choice))) /\ roff r + rcap r <= sz.
+Proof.
+  intros ops c size choice r D Hg.
+  assert (Hgot : got (snd (get (final init ops) c size choice)) = Some r).
+  { destruct Hg as [(x & ->)|(e & x & ->)]; reflexivity. }
+  destruct (get_shape _ _ _ _ _ Hgot) as (H1 & H2 & H3 & H4 & H5 & H6).
+  destruct (H6 (run_inv ops init inv_init D)) as (H7 & sz & Hin & Hlo & Hhi).
+  splits; auto. exists sz. split; [exact Hin|exact Hhi].
+Qed.
+
+Theorem get_nonpositive : forall st c size choice, size <= 0 -> get st c size choice = (st, EGetNil).
+Proof. exact get_nil. Qed.
+
+Theorem exclusive_items : forall ops, disciplined init ops ->
+  (forall i j a b, i <> j ->
+     nth_error (map snd (ledger (final init ops)) ++ map entry_iv (entries (final init ops))) i = Some a ->
+     nth_error (map snd (ledger (final init ops)) ++ map entry_iv (entries (final init ops))) j = Some b ->
+     iv_overlap a b = false) /\
+  (forall k ev, nth_error (events init ops) k = Some ev ->
+     match ev with
+     | EGetFresh r x => x = true
+     | EGetPool r e x => x = true
+     | EPut _ d => d = true
+     | EWr own => own = true
+     | _ => True
+     end).
+Proof.
+  intros ops D. destruct (exclusive ops D) as [H1 H2]. split; [exact H1|].
+  intros k ev Hev.
+  destruct (run_rule inv step_event_ok step_ok ops init inv_init D) as [_ HE].
+  assert (Hk : (k < List.length ops)%nat).
+  { rewrite <- (events_length init ops). apply nth_error_Some. congruence. }
+  destruct (nth_error ops k) as [o|] eqn:Ho; [|apply nth_error_None in Ho; lia].
+  destruct (HE k o ev Ho Hev) as (stk & _ & _ & Hst & [Hg Hq]).
+  destruct ev; try exact Logic.I; try exact Hg.
+  - destruct o; try exact Hq;
+      (exfalso; revert Hst; cbn [step]).
+    + unfold get. destruct (size <=? 0); [discriminate|].
+      destruct (size >? MaxInt32); [discriminate|].
+      destruct (bs_index size) as [idx|]; [|discriminate].
+      destruct ((idx <? 0) || (32 <=? idx)); [discriminate|].
+      destruct (choice <? 0); [discriminate|].
+      destruct (take_entry choice (entries stk)) as [[e0 rest]|]; [|discriminate].
+      destruct (ecls e0 =? idx); discriminate.
+    + discriminate.
+    + unfold mk. destruct ((0 <=? len) && (len <=? cap)); discriminate.
+    + discriminate.
+  - destruct o; try exact (proj1 Hq);
+      (exfalso; revert Hst; cbn [step]).
+    + unfold get. destruct (size <=? 0); [discriminate|].
+      destruct (size >? MaxInt32); [discriminate|].
+      destruct (bs_index size) as [idx|]; [|discriminate].
+      destruct ((idx <? 0) || (32 <=? idx)); [discriminate|].
+      destruct (choice <? 0); [discriminate|].
+      destruct (take_entry choice (entries stk)) as [[e0 rest]|]; [|discriminate].
+      destruct (ecls e0 =? idx); discriminate.
+    + unfold put. destruct (put_noop r); [discriminate|].
+      destruct (put_idx (rcap r)) as [idx|]; [|discriminate].
+      destruct ((idx <? 0) || (32 <=? idx)); [discriminate|].
+      destruct (release c (region_iv r) (ledger stk)); discriminate.
+    + discriminate.
+    + unfold mk. destruct ((0 <=? len) && (len <=? cap)); discriminate.
 Qed.
